@@ -163,10 +163,23 @@ func rotationProjects(c *core.Ctx, n int) []*gen.Project {
 			if i%5 == 0 {
 				row.Sow1M, row.Sow1D, row.Sow2M, row.Sow2D = 0, 0, 0, 0 // fixed sowing date from the rotation file
 			}
+			// organic fertiliser of the automatic-management table: at harvest (H) or at sowing (S), a few days later
+			if i%4 == 3 || i%7 == 5 {
+				row.OrgF, row.OrgAmount, row.OrgDoy = []string{"RM", "RG", "SG"}[r.Intn(3)], 50+r.Intn(150), r.Intn(20)
+				row.OrgTime = "H"
+				if i%8 == 5 {
+					row.OrgTime = "S"
+				}
+			}
 			rows = append(rows, row)
 		}
 		p.Automan = rows
 		// rotation dates: sowing date inside the window, harvest before the latest harvest
+		for k := 0; k < len(p.Rotation); k++ {
+			if i%4 == 3 || i%7 == 5 {
+				p.Rotation[k].AutOrg = 1
+			}
+		}
 		for k := 1; k < len(p.Rotation); k++ {
 			y, _, _ := gen.YMD(p.Rotation[k].Sow)
 			p.Rotation[k].Sow = gen.DayNum(y, 4, 1+r.Intn(25))
@@ -174,7 +187,7 @@ func rotationProjects(c *core.Ctx, n int) []*gen.Project {
 		}
 		// no fixed-date tillage between sowing and (latest) harvest
 		p.Till, p.Fert, p.Irr = nil, nil, nil
-		p.Arms = []string{fmt.Sprintf("autoSow=%d autoHarv=%d autoIrr=%d autoFert=%d crops=%d", p.Cfg.AutoSow, p.Cfg.AutoHarv, p.Cfg.AutoIrr, p.Cfg.AutoFert, len(p.Rotation)-1)}
+		p.Arms = []string{fmt.Sprintf("autoSow=%d autoHarv=%d autoIrr=%d autoFert=%d crops=%d autorg=%d/%s", p.Cfg.AutoSow, p.Cfg.AutoHarv, p.Cfg.AutoIrr, p.Cfg.AutoFert, len(p.Rotation)-1, p.Rotation[0].AutOrg, rows[0].OrgTime)}
 		ps = append(ps, p)
 	}
 	return ps
